@@ -39,6 +39,17 @@ def extract(trace_path, max_len=60):
         stats["max_depth"] = max(stats["max_depth"], mx)
         if mx < 2 and not twice:
             return
+        # a program must give back everything it took (a stretch whose records are incomplete - an acquisition or a
+        # release outside the scenario's records, an unlock by another goroutine - is not a program)
+        bal = {}
+        for op, m, _ in ops:
+            key = (m, "w" if op in ("L", "U") else "r")
+            bal[key] = bal.get(key, 0) + (1 if op in ("L", "RL") else -1)
+            if bal[key] < 0:
+                break
+        if any(v != 0 for v in bal.values()):
+            stats["unbalanced_dropped"] = stats.get("unbalanced_dropped", 0) + 1
+            return
         stats["nested"] += 1
         if len(ops) > max_len:
             ops = prune(ops)
@@ -131,19 +142,24 @@ def extract(trace_path, max_len=60):
                 cur.setdefault(g, []).append(("L" if mode == "w" else "RL", m, site))
             elif op == "rel":
                 hs = held.get(g, [])
+                matched = False
                 for i in range(len(hs) - 1, -1, -1):
                     if hs[i][0] == m and hs[i][1] == mode:
                         del hs[i]
+                        matched = True
                         break
                 else:
-                    # released by another goroutine than the one that locked it (legal for sync.Mutex): find it
-                    for gg, hh in held.items():
+                    # not locked by this goroutine as far as the trace goes. A read lock taken before the scenario's
+                    # records began is simply not known (never take another reader's entry for it); a write lock has
+                    # one holder, so it was locked by another goroutine (legal for sync.Mutex): find it
+                    for gg, hh in (held.items() if mode == "w" else ()):
                         for i in range(len(hh) - 1, -1, -1):
                             if hh[i][0] == m and hh[i][1] == mode:
                                 del hh[i]
                                 problems.append({"kind": "released-by-other", "scenario": scen, "g": g, "locker": gg, "m": m, "site": site})
                                 break
-                cur.setdefault(g, []).append(("U" if mode == "w" else "RU", m, site))
+                if matched:
+                    cur.setdefault(g, []).append(("U" if mode == "w" else "RU", m, site))
                 if not hs:
                     held.pop(g, None)
                     close_stretch(g)
